@@ -579,3 +579,83 @@ Proof.
     assert (Hnth : nth_error (roots w) (N.to_nat m) = Some x) by (eapply R; eauto; congruence).
     rewrite nth_error_app1; auto. apply nth_error_Some. congruence.
 Qed.
+
+(* ------------------------------------------------------------------ shrinking: parents kept, content lists lose entries *)
+Definition shr (w w' : world) : Prop :=
+  w_next w' = w_next w /\ roots w' = roots w /\
+  forall i, match skel w i, skel w' i with
+            | Some (p, ks), Some (p', ks') => p' = p /\ incl ks' ks /\ NoDup ks'
+            | None, None => True
+            | _, _ => False
+            end.
+
+Lemma shr_refl w : Core w -> shr w w.
+Proof.
+  intros C. repeat split; auto. intros i. destruct (skel w i) as [[p ks]|] eqn:E; auto.
+  repeat split; auto using incl_refl. apply skel_inv in E as (n & Hn & _ & <-). eapply c_nodup; eauto.
+Qed.
+Lemma same_tree_shr w w' : Core w -> same_tree w w' -> shr w w'.
+Proof.
+  intros C (Hn & Hr & Hs). repeat split; auto. intros i. rewrite Hs. destruct (skel w i) as [[p ks]|] eqn:E; auto.
+  repeat split; auto using incl_refl. apply skel_inv in E as (n & Hn0 & _ & <-). eapply c_nodup; eauto.
+Qed.
+Lemma shr_trans a b c : shr a b -> shr b c -> shr a c.
+Proof.
+  intros (H1 & H2 & H3) (G1 & G2 & G3). split; [congruence|]. split; [congruence|]. intros i.
+  specialize (H3 i). specialize (G3 i).
+  destruct (skel a i) as [[p ks]|], (skel b i) as [[p' ks']|], (skel c i) as [[p'' ks'']|]; try tauto.
+  destruct H3 as (-> & I1 & N1). destruct G3 as (-> & I2 & N2). repeat split; auto. eapply incl_tran; eauto.
+Qed.
+
+Lemma shr_par w w' c p : shr w w' -> (par w' c p <-> par w c p).
+Proof.
+  intros (_ & _ & H). specialize (H c). rewrite !par_skel.
+  destruct (skel w c) as [[q ks]|], (skel w' c) as [[q' ks']|]; try tauto.
+  destruct H as (-> & _ & _). split; intros (k & [= -> <-]); eauto.
+Qed.
+Lemma shr_lists w w' p c : shr w w' -> lists w' p c -> lists w p c.
+Proof.
+  intros (_ & _ & H). specialize (H p). rewrite !lists_skel.
+  destruct (skel w p) as [[q ks]|], (skel w' p) as [[q' ks']|]; try tauto;
+    try (intros (a & b & [=] & _); fail).
+  destruct H as (-> & I & _). intros (a & b & [= <- <-] & Hc). eauto.
+Qed.
+Lemma shr_alloc w w' i : shr w w' -> (allocated w' i <-> allocated w i).
+Proof.
+  intros (_ & _ & H). specialize (H i). rewrite !allocated_skel.
+  destruct (skel w i) as [[q ks]|], (skel w' i) as [[q' ks']|]; try tauto; split; congruence.
+Qed.
+
+Lemma Core_shr w w' : shr w w' -> Core w -> Core w'.
+Proof.
+  intros S C. pose proof S as (Hn & Hr & Hs). constructor.
+  - intros i. rewrite (shr_alloc _ _ _ S), Hn. apply C.
+  - intros p c Hl. apply (shr_par _ _ _ _ S). apply C. eapply shr_lists; eauto.
+  - intros p n Hp. specialize (Hs p). rewrite (skel_some _ _ _ Hp) in Hs.
+    destruct (skel w p) as [[q ks]|]; tauto.
+  - intros k r. rewrite Hr. intros H. destruct (c_roots _ C _ _ H) as (n & Hn0 & Hp).
+    specialize (Hs r). rewrite (skel_some _ _ _ Hn0) in Hs. destruct (skel w' r) as [[q' ks']|] eqn:E; [|tauto].
+    destruct Hs as (-> & _). apply skel_inv in E as (n' & Hn' & Hp' & _). exists n'. split; auto. congruence.
+  - intros i Ha. apply (shr_alloc _ _ _ S) in Ha. destruct (c_depth _ C _ Ha) as (h & Hd). exists h.
+    eapply depth_transfer; [|exact Hd]. intros x n Hx. specialize (Hs x). rewrite (skel_some _ _ _ Hx) in Hs.
+    destruct (skel w' x) as [[q' ks']|] eqn:E; [|tauto]. destruct Hs as (-> & _).
+    apply skel_inv in E as (n' & Hn' & Hp' & _). eauto.
+Qed.
+
+Lemma shr_ancs w w' a x : shr w w' -> (AncS w' a x <-> AncS w a x).
+Proof.
+  intros S. split; induction 1; try constructor.
+  - eapply A_up; eauto. apply (shr_par _ _ _ _ S). auto.
+  - eapply A_up; eauto. apply (shr_par _ _ _ _ S). auto.
+Qed.
+
+(* one node loses entries of its content list *)
+Lemma shr_upd1 w w' i pp ks ks' :
+  Core w -> upd1 w w' i -> skel w i = Some (pp, ks) -> skel w' i = Some (pp, ks') -> incl ks' ks -> NoDup ks' ->
+  shr w w'.
+Proof.
+  intros C (Hn & Hr & Ho) Hi Hi' Hinc Hnd. repeat split; auto. intros x. destruct (N.eq_dec x i) as [->|Hx].
+  - rewrite Hi, Hi'. auto.
+  - rewrite Ho by auto. destruct (skel w x) as [[p k]|] eqn:E; auto. repeat split; auto using incl_refl.
+    apply skel_inv in E as (n & Hn0 & _ & <-). eapply c_nodup; eauto.
+Qed.
